@@ -171,18 +171,26 @@ def collocBlock (F : Residual) (theta tinit : Rat) (p s0 s1 c0 c1 : List Rat) (t
   else vadd (vscale (1 - theta) (F s0 fd c0 (ta - tinit) p))
             (vscale theta (F s1 fd c1 (tb - tinit) p))
 
-/-- output of the mapped function `accumulated` at step `i`: the DAE block followed by the path
-    objective, path constraints and delay expressions -/
-def mappedOut (F : Residual) (s : Sys) (c : Mem) (X : Vec) (i : Nat) : List Rat :=
-  let u := uRow s c X i
-  let k := s.k
-  let nc := s.nc
+/-- `[lo, hi)` positions of `collocated_states_0/1` and `constant_inputs_0/1` inside the mapped
+    input row (`k` collocated variables, `nc` constant inputs) -/
+def sliceIdx (k nc : Nat) : List (Nat × Nat) :=
+  [(0, k), (k, 2 * k), (2 * k, 2 * k + nc), (2 * k + nc, 2 * k + 2 * nc)]
+
+/-- positions of `collocation_time_0/1` -/
+def timeIdx (k nc : Nat) : Nat × Nat := (2 * (k + nc), 2 * (k + nc) + 1)
+
+/-- the DAE block of the mapped function, from its input row `u` -/
+def blockOfRow (F : Residual) (theta tinit : Rat) (par : List Rat) (k nc : Nat) (u : List Rat) : List Rat :=
   let off := 2 * (k + nc)
-  collocBlock F s.theta s.t0 c.par
+  collocBlock F theta tinit par
       (slice u 0 k) (slice u k (2 * k))
       (slice u (2 * k) (2 * k + nc)) (slice u (2 * k + nc) (2 * k + 2 * nc))
       (u.getD off 0) (u.getD (off + 1) 0)
-    ++ c.other i
+
+/-- output of the mapped function `accumulated` at step `i`: the DAE block followed by the path
+    objective, path constraints and delay expressions -/
+def mappedOut (F : Residual) (s : Sys) (c : Mem) (X : Vec) (i : Nat) : List Rat :=
+  blockOfRow F s.theta s.t0 c.par s.k s.nc (uRow s c X i) ++ c.other i
 
 /-- `collocation_constraints` of step `i`: rows `[:dae_residual_collocated_size]` -/
 def collocRowsCode (F : Residual) (s : Sys) (c : Mem) (X : Vec) (i : Nat) : List Rat :=
